@@ -27,7 +27,7 @@ func init() {
 		},
 		Meta: func(tier string) core.Meta {
 			return core.Meta{ID: "C16", Level: "exploration",
-				Rule: "schedules = iteration orders of Go maps: every `range <map>` statement of the repository (36 static sites, found by type, rewritten in a build overlay) yields its keys in an order chosen by the explorer; per input: run 0 = canonical order everywhere (records the dynamic occurrences), then for every dynamic occurrence with n >= 2 keys all n! orders (n <= 4) or all rotations, the reversal and all adjacent transpositions (n > 4), one deviating occurrence per run (thorough: also all pairs of occurrences on the tie-rich inputs); inputs: every DEVICE/NETSPOC pair of the repository's tests plus tie-rich generated configurations (identical left-over object-groups, crypto map entries with one peer, several dangling references, unused raw objects, identical NSX groups, iptables rules differing in several options, several extra tables/chains); oracle: stdout (change script), stderr (warnings, errors) and exit status byte-identical to run 0; non-trivial = runs with a permuted occurrence",
+				Rule: "schedules = iteration orders of Go maps: every `range <map>` statement of the repository (36 static sites, found by type, rewritten in a build overlay) yields its keys in an order chosen by the explorer; per input: run 0 = canonical order everywhere (records the dynamic occurrences), then for every dynamic occurrence with n >= 2 keys all n! orders (n <= 4) or all rotations, the reversal and all adjacent transpositions (n > 4), one deviating occurrence per run (thorough: also all pairs of occurrences on the tie-rich inputs); inputs: every DEVICE/NETSPOC pair of the repository's tests, every k-th case (fixed strides, smaller in the thorough tier) of the structured spaces of the planner checks C01-C05 (all five device types), plus tie-rich generated configurations (same name for two command types, protocol/match pairs, several dangling references) (identical left-over object-groups, crypto map entries with one peer, several dangling references, unused raw objects, identical NSX groups, iptables rules differing in several options, several extra tables/chains); oracle: stdout (change script), stderr (warnings, errors) and exit status byte-identical to run 0; non-trivial = runs with a permuted occurrence",
 				Assumptions: []string{"map iteration order is the only source of nondeterminism on the planning path (no goroutines, clocks or randomness there)"},
 				Bounds:      map[string]any{"quick": "bound 1 (one permuted occurrence)", "thorough": "bound 2 on tie-rich inputs"},
 			}
